@@ -40,6 +40,7 @@ class State(object):
         self.pairs = {}         # (name, den) -> (s, c) SReal
         self.kind = {}          # name -> 'input' | 'inv' | 'const' | 'opaque' | 'int'
         self.reg = {}           # z3 term id -> SAng   (to push trig through ITEs)
+        self.log = []           # arguments handed to the inverse functions (probes)
         self.n = 0
         cx.axiom(z3.And(PI > z3.RealVal("3.14159265358979"), PI < z3.RealVal("3.14159265358980")))
 
@@ -262,6 +263,8 @@ class SAng(SReal):
 
 
 class UnitInv(object):
+    __array_priority__ = 5000.0
+
     """number / (constant angle in radians), e.g. R2D = 1.0/D2R: multiplying an angle in
     radians by it converts to degrees (and scales)"""
 
@@ -269,6 +272,8 @@ class UnitInv(object):
         self.scale = Fr(scale)
 
     def __rmul__(self, x):
+        if isinstance(x, symnp.SArr):
+            return symnp.SArr(symnp._map(lambda c: self.__rmul__(c), x.a), x.dt)
         if isinstance(x, SAng):
             return SAng({a: c * self.scale for a, c in x.form.items()}, x.const * self.scale, x.k + 1)
         if _is_num(x):
@@ -306,7 +311,14 @@ def angle(name, lo=None, hi=None, unit="deg"):
         S.cx._assume_t(v >= z3.RealVal(_frac(lo)))
     if hi is not None:
         S.cx._assume_t(v <= z3.RealVal(_frac(hi)))
-    pair(name, 1)
+    sp, cp = pair(name, 1)
+    # sin/cos are functions: equal angles (also modulo a turn) have equal pairs
+    for other in S.cx.memo.setdefault("trig_inputs", []):
+        so, co_ = pair(other, 1)
+        vo = S.atoms[other]
+        same = z3.And(sp.t == so.t, cp.t == co_.t)
+        S.cx.axiom(z3.And(z3.Implies(v == vo, same), z3.Implies(v == vo + 360, same), z3.Implies(v + 360 == vo, same)))
+    S.cx.memo["trig_inputs"].append(name)
     return SAng({name: Fr(1)}, 0, 1 if unit == "deg" else 0)
 
 
@@ -490,11 +502,13 @@ def arcsin(u):
     if _is_num(u):
         if abs(u) > 1:
             raise Unsupported("arcsin of a concrete value outside [-1,1] (nan)")
+        st().log.append(("arcsin", u))
         return const_angle(Fr(math.degrees(math.asin(u))), 0) if u not in (0, 1, -1) else const_angle(90 * int(u), 0)
     cx = symx.Ctx.current
     cx.obligation(z3.And(u.t >= -1, u.t <= 1), "arcsin argument outside [-1,1]")
     c = symx.sym_sqrt(1 - u * u)
     S = st()
+    S.log.append(("arcsin", u))
 
     def extra(v):
         ax = [z3.Implies(u.t > 0, v > 0), z3.Implies(u.t < 0, v < 0), z3.Implies(u.t == 0, v == 0),
@@ -543,13 +557,24 @@ def arctan(u):
 def arctan2(y, x):
     y, x = _as_real(y), _as_real(x)
     if _is_num(y) and _is_num(x):
+        st().log.append(("arctan2", y, x))
         return const_angle(Fr(math.degrees(math.atan2(y, x))), 0)
     y = y if isinstance(y, SReal) else SReal(symx.ratval(y))
     x = x if isinstance(x, SReal) else SReal(symx.ratval(x))
     cx = symx.Ctx.current
     rho = symx.sym_sqrt(x * x + y * y)
     cx.obligation(rho.t > 0, "arctan2(0, 0): direction undefined (pole)")
-    r, v = _new_inverse("atan2", y / rho, x / rho, -180, 180,
+    S = st()
+    S.log.append(("arctan2", y, x))
+    # the pair is (y, x)/rho: kept as fresh (s, c) with s*rho = y, c*rho = x so that
+    # products with rho normalise (no quotients in the polynomial tier)
+    nm = S.fresh("at2p")
+    sv, cv = z3.Real(nm + "!s"), z3.Real(nm + "!c")
+    cx.axiom(z3.And(sv * rho.t == y.t, cv * rho.t == x.t, sv * sv + cv * cv == 1))
+    cx.rules.append(((sv, rho.t), 1, y.t))
+    cx.rules.append(((cv, rho.t), 1, x.t))
+    cx.rules.append((sv, 2, 1 - cv * cv))
+    r, v = _new_inverse("atan2", SReal(sv), SReal(cv), -180, 180,
                         lambda v: [z3.Implies(y.t > 0, z3.And(v > 0, v < 180)), z3.Implies(y.t < 0, z3.And(v < 0, v > -180)),
                                    z3.Implies(z3.And(y.t == 0, x.t > 0), v == 0), z3.Implies(z3.And(y.t == 0, x.t < 0), v == 180),
                                    z3.Implies(x.t > 0, z3.And(v > -90, v < 90)), z3.Implies(z3.And(x.t < 0, y.t >= 0), v > 90),
